@@ -42,6 +42,10 @@ func SignJSON(signingName string, keyID KeyID, privateKey ed25519.PrivateKey, me
 	if err = json.Unmarshal(message, &preserve); err != nil {
 		return nil, err
 	}
+	if preserve.Signatures == nil {
+		// "signatures": null
+		preserve.Signatures = map[string]map[KeyID]spec.Base64Bytes{}
+	}
 	if message, err = sjson.DeleteBytes(message, "signatures"); err != nil {
 		return nil, err
 	}
@@ -53,8 +57,8 @@ func SignJSON(signingName string, keyID KeyID, privateKey ed25519.PrivateKey, me
 		return nil, err
 	}
 	signature := spec.Base64Bytes(ed25519.Sign(privateKey, canonical))
-	if _, ok := preserve.Signatures[signingName]; ok {
-		preserve.Signatures[signingName][keyID] = signature
+	if existing := preserve.Signatures[signingName]; existing != nil {
+		existing[keyID] = signature
 	} else {
 		preserve.Signatures[signingName] = map[KeyID]spec.Base64Bytes{
 			keyID: signature,
